@@ -15,7 +15,7 @@ from ..scratch import scratch
 NAME = 'alleles'
 PROPERTY = 'C18'
 LEVEL = 'exploration'
-RULE = ('A case is one seeded bgzipped+tabix-indexed VCF (1..4 contigs, 1..4 samples, biallelic/multi-allelic SNVs, multi-base alleles, '
+RULE = ('A case is one seeded bgzipped+tabix-indexed VCF (1..4 contigs, 1..4 samples (some names with a blank), biallelic/multi-allelic SNVs, multi-base alleles, '
         'missing genotypes, phased/unphased, monomorphic sites) and a history of 1..4 lifetimes sharing the cache directory; each lifetime '
         'draws (lazyLoad,use_cache) from all four combinations, an access sequence over (contig,position,base) incl. absent positions, absent '
         'contigs and revisits of evicted contigs; in some histories select_samples / ignore_conversions / phased differ between lifetimes '
@@ -33,7 +33,7 @@ COMPONENTS = {
     'real': ['Molecule.allele (likelihood assignment, the DA tag) of one-read molecules tagged with the resolver under test', 'AlleleResolver.__init__ flag handling', 'fetchChromosome', 'write_cache/read_cached', 'getAllelesAt', 'has_location', 'pysam.VariantFile/tabix', 'cache files on a real file system (scratch)'],
     'stub': ['transient EMFILE on the n-th open of a cache file for reading (alleleTools.gzip seam)', 'crash injector for cache-writing lifetimes: forked child, sys.settrace line events inside write_cache with os._exit(137), or RLIMIT_FSIZE'],
 }
-REQUIRED_PROBES = ['molecule_tagged', 'lookup_hit_by_cache_read_fault', 'lifetime_died_while_writing_cache', 'cache_file_read_in_later_lifetime', 'evicted_contig_revisited', 'cache_without_lazy', 'absent_contig_query', 'nonempty_answer', 'config_changed_between_lifetimes']
+REQUIRED_PROBES = ['sample_name_with_blank', 'molecule_tagged', 'lookup_hit_by_cache_read_fault', 'lifetime_died_while_writing_cache', 'cache_file_read_in_later_lifetime', 'evicted_contig_revisited', 'cache_without_lazy', 'absent_contig_query', 'nonempty_answer', 'config_changed_between_lifetimes']
 BASES = 'ACGT'
 
 
@@ -66,7 +66,9 @@ def generate(seed, tier):
     w = st.workload
     nctg = w.choice([1, 2, 2, 3, 4])
     nsamp = w.choice([1, 2, 2, 3, 4])
-    samples = [f'S{i + 1}' for i in range(nsamp)]
+    # sample names are free text in a VCF header (tab separated): some carry a blank
+    blank = w.random() < 0.3
+    samples = [(f'donor {i + 1}' if blank and w.random() < 0.7 else f'S{i + 1}') for i in range(nsamp)]
     contigs = [[f'c{i + 1}', 1000] for i in range(nctg)]
     records = []
     for ci in range(nctg):
@@ -303,6 +305,9 @@ def execute(case):
 
     def probe(k, n=1):
         probes[k] = probes.get(k, 0) + n
+
+    if any(' ' in x for x in case['vcf']['samples']):
+        probe('sample_name_with_blank')
 
     def mk(path, cfg, lazy, cache):
         return AlleleResolver(path, lazyLoad=lazy, use_cache=cache, phased=cfg['phased'],
